@@ -176,6 +176,14 @@ func c19Battery() [32]byte {
 	put(new(edwards25519.Point).MultByCofactor(Q).Bytes())
 	put([]byte{byte(Q.Equal(R)), byte(Q.Equal(Q))})
 	put(Q.BytesMontgomery())
+	// special values are where a shared "fast path" result would sit
+	for _, sp := range []ref.Pt{ref.Identity(), ref.Torsion()[4], ref.Torsion()[2]} {
+		for _, form := range []int{0, 3} {
+			p := alpha.MakePoint(sp, form)
+			put(p.Bytes())
+			put(p.BytesMontgomery())
+		}
+	}
 	X, Y, Z, T := Q.ExtendedCoordinates()
 	put(X.Bytes())
 	put(Y.Bytes())
@@ -242,6 +250,7 @@ func c19Ops(tier string) []string {
 		"call ExtendedCoordinates 0", "call ExtendedCoordinates 1", "call Bytes 0", "call Bytes 1", "call BytesMontgomery 0",
 		"call ScalarBytes", "call ElementBytes",
 		"call ZeroScalarBytes", "call ZeroElementBytes", "call IdentityBytes",
+		"call IdentityBytesMontgomery", "call Order2Bytes", "call Order2BytesMontgomery", "call IdentityExtendedCoordinates",
 	}
 	for slot := 0; slot < 2; slot++ {
 		for mode := 0; mode < 3; mode++ {
@@ -311,6 +320,29 @@ func (w *c19World) step(op string) *core.Fail {
 			h.kind, h.b = "bytes", new(edwards25519.Point).Subtract(&w.P[1], &w.P[1]).Bytes()
 			e := ref.Encode(ref.Identity())
 			exp = e[:]
+		case "IdentityBytesMontgomery": // u of the identity is the documented special case 1/0 = 0
+			h.kind, h.b = "bytes", new(edwards25519.Point).Subtract(&w.P[1], &w.P[1]).BytesMontgomery()
+			e := ref.Montgomery(ref.Identity())
+			exp = e[:]
+		case "Order2Bytes", "Order2BytesMontgomery": // (0,-1): x = 0 and u = 0
+			t2 := alpha.MakePoint(ref.Torsion()[4], 2)
+			if f[1] == "Order2Bytes" {
+				h.kind, h.b = "bytes", t2.Bytes()
+				e := ref.Encode(ref.Torsion()[4])
+				exp = e[:]
+			} else {
+				h.kind, h.b = "bytes", t2.BytesMontgomery()
+				e := ref.Montgomery(ref.Torsion()[4])
+				exp = e[:]
+			}
+		case "IdentityExtendedCoordinates":
+			id := edwards25519.NewIdentityPoint()
+			h.kind = "elems"
+			h.e[0], h.e[1], h.e[2], h.e[3] = id.ExtendedCoordinates()
+			for _, v := range []int64{0, 1, 1, 0} {
+				le := ref.LE32(big.NewInt(v))
+				exp = append(exp, le[:]...)
+			}
 		}
 		h.want = h.observe()
 		if !bytes.Equal(h.want, exp) {
@@ -610,7 +642,7 @@ var subC19Conf = core.NewSub("C19/confusable-histories", func(w *core.Worker, c 
 func init() { register("C19", "model_checking", runC19) }
 
 func runC19(ctx *core.Ctx) {
-	ctx.Rule("all sequences up to the depth bound over an alphabet of 10 constructor/accessor calls (NewIdentityPoint, NewGeneratorPoint, NewScalar, ExtendedCoordinates, Point.Bytes, BytesMontgomery, Scalar.Bytes, Element.Bytes), 6 scribbles (overwrite one of the two most recent returned values through its exported setters / raw bytes up to cap, three modes) and 4 heavy operations; each sequence executed from fresh source values (successor = replay of the history, no cloning). Invariants after every step: source values bit-identical; every unscribbled earlier result unchanged; each new result equals the model and its memory is disjoint from sources and earlier results; a 70-call probe battery over fixed arguments (every operation class, receivers with different histories) returns byte-identical output. states = sequences explored, transitions = steps executed. Plus: every multiplication routine into four receiver histories must give identical bytes")
+	ctx.Rule("all sequences up to the depth bound over an alphabet of 17 constructor/accessor calls (NewIdentityPoint, NewGeneratorPoint, NewScalar, ExtendedCoordinates, Point.Bytes, BytesMontgomery, Scalar.Bytes, Element.Bytes, and the accessors on special values: zero scalar/element, identity, the point of order 2), 6 scribbles (overwrite one of the two most recent returned values through its exported setters / raw bytes up to cap, three modes) and 4 heavy operations; each sequence executed from fresh source values (successor = replay of the history, no cloning). Invariants after every step: source values bit-identical; every unscribbled earlier result unchanged; each new result equals the model and its memory is disjoint from sources and earlier results; a 70-call probe battery over fixed arguments (every operation class, receivers with different histories) returns byte-identical output. states = sequences explored, transitions = steps executed. Plus: every multiplication routine into four receiver histories must give identical bytes")
 	ctx.Assume("package state is observed through behaviour (probe battery) and pointer ranges, not through a memory snapshot of package variables", "workers share the process; a violation corrupting package state may cascade into later sequences of the same run (the first one is reported)")
 	ops := c19Ops(ctx.Tier)
 	n := len(ops)
